@@ -232,7 +232,7 @@ impl Ctx {
         let mut ev = Map::new();
         ev.insert("i".into(), json!(i));
         ev.insert("ev".into(), json!(name));
-        for f in ["h", "k", "v", "db", "tag", "flavour", "from", "to", "rep"] {
+        for f in ["h", "k", "v", "db", "tag", "flavour", "from", "to", "rep", "as"] {
             if let Some(x) = op.get(f) {
                 ev.insert(f.to_string(), x.clone());
             }
